@@ -183,10 +183,11 @@ func (t *TTYFrontend) renderRegionLocked(r Region) {
 }
 
 func (t *TTYFrontend) renderCursorLocked() {
-	if t.term == nil || t.out == nil {
+	// A detached frontend does not own the cursor: Detach has shown it again.
+	if t.term == nil || t.out == nil || !t.attached {
 		return
 	}
-	if !t.attached || !t.showCur || !t.focused {
+	if !t.showCur || !t.focused {
 		_, _ = t.out.Write([]byte(ansiCursorHide))
 		return
 	}
